@@ -11,7 +11,12 @@ func NewRange(b, e int) Range {
 }
 
 // Len is in the iteration interface
-func (r Range) Len() int { return r.e + 1 - r.b }
+func (r Range) Len() int {
+	if r.e < r.b {
+		return 0
+	}
+	return r.e + 1 - r.b
+}
 
 // Index is in the iteration interface
 func (r Range) Index(i int) any { return r.b + i }
